@@ -47,11 +47,6 @@ def dirTrip (d : Dir) (n : Nat) : Trip :=
 def kernelZone (d : Dir) : Zone :=
   { temp := d.file bNameTemp, typ := d.file bNameType, trips := (tripIdxs d).map (dirTrip d) }
 
-/-- what the property promises for the zone directory (`none` = zone left out; thresholds may be
-    undetermined, see `zoneThresh`); silent on directories with foreign `trip_point*` names -/
-def zoneDirRow (d : Dir) : Option (Option Row) :=
-  if KernelNamed d then some (zoneRow (kernelZone d)) else none
-
 /-- hwmon attribute base `temp<n>` / `fan<n>` (`%d`: canonical decimal, any number of digits) -/
 def attrBase (pre : Bytes) (n : Nat) : Bytes := pre ++ renderDec n
 
